@@ -73,6 +73,9 @@ class Fn:
     def owner(self) -> str:
         """Name under which findings are keyed: `Class.method` or, for module-level / nested functions, the name chain without the module
         path (moving a function to another module of the package does not change what it is)."""
+        ov = getattr(self, "_owner_override", None)
+        if ov:
+            return ov
         if self.cls is not None:
             return f"{self.cls.name}.{self.name}"
         q = self.qual
@@ -208,6 +211,7 @@ class Prog:
             n_any = sum(normalise.any_to_loop(t) for t in trees.values())
             n_gl = sum(normalise.getters_to_lambdas(t) for t in trees.values())
             n_mf = sum(normalise.map_filter_to_comprehensions(t) for t in trees.values())
+            n_mf += sum(normalise.fuse_identity_generators(t) for t in trees.values())
             n_ci = sum(normalise.expand_container_idioms(t) for t in trees.values())
             n_cg = sum(normalise.continue_guards_to_branches(t) for t in trees.values())
             n_nnf = sum(normalise.negation_normal_form(t) for t in trees.values())
@@ -230,6 +234,21 @@ class Prog:
             self.norm_stats["tails_duplicated_into_branches"] = sum(normalise.duplicate_tail_into_branches(t) for t in trees.values())
         self._index()
         self._resolve_bases()
+        self._key_owner_of_unabsorbable_helpers()
+
+    def _key_owner_of_unabsorbable_helpers(self) -> None:
+        """A private helper that the front-end would absorb but cannot (a generator, a recursive function) and that has one caller is, for the
+        purpose of keying findings, part of that caller: extracting the body of a loop into `_pairs()` that yields does not move a finding."""
+        rej = self.norm_stats.get("rejected", {}) if self.norm_stats else {}
+        cands = [q for q, why in rej.items() if why in ("generator", "recursive") and q in self.funcs and self.funcs[q].name.startswith("_") and not self.funcs[q].name.startswith("__")]
+        if not cands:
+            return
+        g = self.build_callgraph()
+        self._cg = None  # (built before the overrides existed; rebuilt on demand)
+        for q in cands:
+            callers = [c for c in g.predecessors(q) if c != q and c in self.funcs] if q in g else []
+            if len(callers) == 1:
+                self.funcs[q]._owner_override = self.funcs[callers[0]].owner  # type: ignore[attr-defined]
 
     # ---- loading -------------------------------------------------------------------
     def _load(self) -> None:
